@@ -401,13 +401,17 @@ def oracle_c06(inst, o, well_posed):
             dA = R.token_ref(o.blocks[a][0]).descs[da[0][1]]
             dB = R.token_ref(o.blocks[b][0]).descs[db[0][1]]
             eA, eB = inst.nspec["elements"][ea], inst.nspec["elements"][eb]
+            def conj(d, t):
+                # terminal descriptors are matched by symbol and id (the library cannot even read a bond order on a right terminal)
+                return d.id == t.id and (d.symbol, t.symbol) in (("$", "$"), ("<", ">"), (">", "<"))
+
             if eA["k"] == "sto":
                 Rt = R.terminal_ref(eA["right"])
-                if not R.compat(dA, Rt):
+                if not conj(dA, Rt):
                     out.append(("C06", "junction-terminal", f"element {ea} hands over through {dA.plain()}, its right terminal is {eA['right']}"))
             if eB["k"] == "sto":
                 Lt = R.terminal_ref(eB["left"])
-                if not R.compat(dB, Lt):
+                if not conj(dB, Lt):
                     out.append(("C06", "junction-terminal", f"element {eb} is entered through {dB.plain()}, its left terminal is {eB['left']}"))
     # end groups are leaves
     for r, ((text, _, _, _), ei) in enumerate(zip(o.blocks, els)):
@@ -484,7 +488,9 @@ def oracle_c07(inst, o, targets):
 # --------------------------------------------------------------------------- exploration of one instance
 
 
-def run_instance(inst, max_exec=200000, bound=None, want=("C04", "C05", "C06", "C07", "C08"), well_posed=None, model=True):
+def run_instance(inst, max_exec=200000, bound=None, want=("C04", "C05", "C06", "C07", "C08"), well_posed=None, model=True, reuse=False):
+    """reuse=True: the molecule is parsed ONCE and the same object generates every execution (state kept between
+    generations of one object then shows up in the per-execution oracles and in the outcome distribution)"""
     import gbigsmiles
 
     text = inst.text
@@ -495,9 +501,11 @@ def run_instance(inst, max_exec=200000, bound=None, want=("C04", "C05", "C06", "
     pvec_bad = []
     ndraws_seen = set()
 
+    shared = [gbigsmiles.Molecule(text)] if reuse else None
+
     def run(rng):
         try:
-            mol = gbigsmiles.Molecule(text)
+            mol = shared[0] if reuse else gbigsmiles.Molecule(text)
             mg = mol.generate(rng=rng)
             return ("ok", mg)
         except HarnessError:
